@@ -9,7 +9,7 @@ if [ -n "$REAL" ]; then
 else
   T=/tmp/mut/_try/repo
   [ -d $T ] || git -C /repo worktree add --detach $T HEAD >/dev/null 2>&1
-  git -C $T checkout -q -- . 
+  git -C $T checkout -q -f --detach main
 fi
 echo "== demo on clean tree"; /venv/bin/python $d/demo.py $T >/tmp/mut/demo_clean.log 2>&1; echo "rc=$?"
 git -C $T apply $d/patch.diff || { echo "patch does not apply"; exit 2; }
